@@ -258,8 +258,14 @@ func generate(p *Prog, prop string, cover bool) *RunResult {
 			rr.Unbound = append(rr.Unbound, k)
 			continue
 		}
+		dep := false
 		if prop != "" && !relevant(p, fc, prop) && !touchesProtected(p, fn, prop) && !callsTaggedPre(p, fn, prop) {
-			continue
+			if !p.depClosure(prop)[fn] {
+				continue
+			}
+			// not tagged for the property, but a function the property's proofs call:
+			// its contract is an assumption of those proofs, so it is verified with them
+			dep = true
 		}
 		if fc.Trusted {
 			rr.Trusted = append(rr.Trusted, shortPkg(fc.PkgPath)+"."+fc.Key)
@@ -272,9 +278,16 @@ func generate(p *Prog, prop string, cover bool) *RunResult {
 		rr.Execs = append(rr.Execs, e)
 		rr.Functions = append(rr.Functions, e.name)
 		all := contractTags(fc)
+		if dep {
+			rr.Functions[len(rr.Functions)-1] = e.name + " (dependency of " + prop + ")"
+		}
 		for _, o := range e.obls {
 			if len(o.Props) == 0 {
 				o.Props = all
+			}
+			if dep && !contains(o.Props, prop) && o.Kind != "discipline" && o.Kind != "cover" {
+				o.Props = append(append([]string{}, o.Props...), prop)
+				o.Dependency = true
 			}
 			rr.Obls = append(rr.Obls, o)
 		}
@@ -627,4 +640,92 @@ func callsTaggedPre(p *Prog, fn *ssa.Function, prop string) bool {
 		}
 	}
 	return false
+}
+
+// depClosure: the functions under contract that the functions relevant for a property
+// call, directly or through uncontracted helpers and interface methods implemented in
+// the module, transitively. Their contracts are what the property's proofs assume.
+func (p *Prog) depClosure(prop string) map[*ssa.Function]bool {
+	if p.depCache == nil {
+		p.depCache = map[string]map[*ssa.Function]bool{}
+	}
+	if c, ok := p.depCache[prop]; ok {
+		return c
+	}
+	res := map[*ssa.Function]bool{}
+	p.depCache[prop] = res
+	var work []*ssa.Function
+	for _, k := range sortedKeys(p.CS.Funcs) {
+		fc := p.CS.Funcs[k]
+		var fn *ssa.Function
+		if fc.IsClosure {
+			if parent := p.FnByKey[fc.PkgPath+"::"+fc.Parent]; parent != nil {
+				fn = p.bindClosure(parent, fc)
+			}
+		} else {
+			fn = p.FnByKey[k]
+		}
+		if fn != nil && (relevant(p, fc, prop) || touchesProtected(p, fn, prop) || callsTaggedPre(p, fn, prop)) {
+			work = append(work, fn)
+		}
+	}
+	seenBody := map[*ssa.Function]bool{}
+	var scan func(fn *ssa.Function, depth int)
+	add := func(callee *ssa.Function) {
+		if callee == nil || !inModule(callee) || res[callee] {
+			return
+		}
+		if fc := p.contractFor(callee); fc != nil && !fc.Trusted && !fc.Inline {
+			res[callee] = true
+			work = append(work, callee)
+		}
+	}
+	scan = func(fn *ssa.Function, depth int) {
+		if seenBody[fn] || depth > 4 {
+			return
+		}
+		seenBody[fn] = true
+		for _, b := range fn.Blocks {
+			for _, in := range b.Instrs {
+				ci, ok := in.(ssa.CallInstruction)
+				if !ok {
+					continue
+				}
+				c := ci.Common()
+				if c.IsInvoke() {
+					it, ok := c.Value.Type().Underlying().(*types.Interface)
+					if !ok {
+						continue
+					}
+					for _, impl := range p.implementers(it) {
+						sel := p.SSA.MethodSets.MethodSet(impl).Lookup(c.Method.Pkg(), c.Method.Name())
+						if sel == nil {
+							sel = p.SSA.MethodSets.MethodSet(impl).Lookup(nil, c.Method.Name())
+						}
+						if sel != nil {
+							if m := p.SSA.MethodValue(sel); m != nil && m.Synthetic == "" {
+								add(m)
+							}
+						}
+					}
+					continue
+				}
+				callee := c.StaticCallee()
+				if callee == nil || !inModule(callee) {
+					continue
+				}
+				if fc := p.contractFor(callee); fc != nil && !fc.Inline {
+					add(callee)
+				} else if len(callee.Blocks) > 0 {
+					scan(callee, depth+1) // uncontracted helper: looked through (it is inlined)
+				}
+			}
+		}
+	}
+	for len(work) > 0 {
+		fn := work[0]
+		work = work[1:]
+		scan(fn, 0)
+	}
+	return res
 }
